@@ -229,7 +229,95 @@ def gen_opt(status):
     return write_if_changed(os.path.join(GEN_DIR, 'Opt.lean'), body)
 
 
-GENERATORS = [gen_pess, gen_opt]
+MCS_ORDER_SLOTS = {
+    # function -> (expected ops, slot names, defaults)
+    'LockS': (['store', 'load', 'cas', 'cas', 'load', 'load', 'load'],
+              ['lockS.store', 'lockS.load', 'lockS.casJoinS', 'lockS.casJoinF', 'lockS.casNewS', 'lockS.casNewF',
+               'lockS.spinLock', 'lockS.spinNext', 'lockS.spinNode'],
+              ['rlx', 'rlx', 'acq', 'rlx', 'acq', 'rlx', 'acq', 'acq', 'acq']),
+    'LockSIX': (['store', 'xchg', 'RMW', 'fadd', 'load'],
+                ['lockSIX.store', 'lockSIX.xchg', 'lockSIX.publish', 'lockSIX.link', 'lockSIX.spin'],
+                ['rlx', 'acq', 'rlx', 'rel', 'acq']),
+    'LockX': (['store', 'xchg', 'RMW', 'fadd', 'load'],
+              ['lockX.store', 'lockX.xchg', 'lockX.publish', 'lockX.link', 'lockX.spin'],
+              ['rlx', 'acq', 'rlx', 'rel', 'acq']),
+    'UnlockS': (['load', 'load', 'cas', 'cas', 'load', 'fsub'],
+                ['unlockS.load', 'unlockS.lockLoad', 'unlockS.casDecS', 'unlockS.casDecF', 'unlockS.casNullS',
+                 'unlockS.casNullF', 'unlockS.spinNext', 'unlockS.handoff'],
+                ['acq', 'rlx', 'rel', 'rlx', 'rel', 'rlx', 'acq', 'rel']),
+    'UnlockSIX': (['load', 'load', 'cas', 'cas', 'load', 'fxor'],
+                  ['unlockSIX.load', 'unlockSIX.lockLoad', 'unlockSIX.casDecS', 'unlockSIX.casDecF',
+                   'unlockSIX.casNullS', 'unlockSIX.casNullF', 'unlockSIX.spinNext', 'unlockSIX.handoff'],
+                  ['acq', 'rlx', 'rel', 'rlx', 'rel', 'rlx', 'acq', 'rel']),
+    'UnlockX': (['load', 'load', 'cas', 'cas', 'load', 'fxor'],
+                ['unlockX.load', 'unlockX.lockLoad', 'unlockX.casDecS', 'unlockX.casDecF', 'unlockX.casNullS',
+                 'unlockX.casNullF', 'unlockX.spinNext', 'unlockX.handoff'],
+                ['acq', 'rlx', 'rel', 'rlx', 'rel', 'rlx', 'acq', 'rel']),
+    'SIXGuard::UpgradeToX': (['load', 'load', 'cas', 'load', 'fxor'],
+                             ['upg.load', 'upg.lockLoad', 'upg.casS', 'upg.casF', 'upg.spinNext', 'upg.handoff'],
+                             ['acq', 'rlx', 'acq', 'rlx', 'acq', 'acq']),
+    'XGuard::DowngradeToSIX': (['load', 'load', 'cas', 'load', 'fxor'],
+                               ['dng.load', 'dng.lockLoad', 'dng.casS', 'dng.casF', 'dng.spinNext', 'dng.handoff'],
+                               ['rlx', 'rlx', 'rel', 'rlx', 'rlx', 'rel']),
+}
+
+
+def gen_mcs(status):
+    names = ['kNull', 'kNoLocks', 'kSLock', 'kSIXLock', 'kXLock', 'kPtrMask', 'kLockMask', 'kXMask', 'kSMask']
+    vals = compile_consts('mcs', [f'{REPO}/src/lock/mcs_lock.cpp'], names)
+    if isinstance(vals, str):
+        status['errors'].append('mcs constants: ' + vals)
+        vals = {'kNull': 0, 'kNoLocks': 0, 'kSLock': 1 << 47, 'kSIXLock': 1 << 62, 'kXLock': 1 << 63,
+                'kPtrMask': (1 << 47) - 1, 'kLockMask': ((1 << 64) - 1) ^ ((1 << 47) - 1), 'kXMask': 3 << 62,
+                'kSMask': ((1 << 62) - 1) ^ ((1 << 47) - 1)}
+    status['constants']['mcs'] = vals
+    src = cxxscan.strip_comments(read(f'{REPO}/src/lock/mcs_lock.cpp'))
+    d = {}
+    publish_kind = {}
+    for fn, (ops, slots, defaults) in MCS_ORDER_SLOTS.items():
+        q = f'MCSLock::{fn}'
+        found = cxxscan.find_function(src, q)
+        ok = False
+        sites = []
+        if found:
+            sites = cxxscan.atomic_sites(found[1])
+            got = [s_['op'] for s_ in sites]
+            if len(got) == len(ops) and all(e == g or (e == 'RMW' and g in ('store', 'fxor', 'fadd', 'for', 'fand', 'xchg', 'fsub'))
+                                             for e, g in zip(ops, got)):
+                ok = True
+        status['functions'][q] = {'recognised': ok, 'expected_ops': ops,
+                                  'sites': [{'op': s_['op'], 'orders': s_['orders'], 'recv': s_['recv']} for s_ in sites]}
+        if ok:
+            flat = []
+            for s_ in sites:
+                flat.extend(s_['orders'])
+            for name, o in zip(slots, flat):
+                d[name] = o
+            for e, s_ in zip(ops, sites):
+                if e == 'RMW':
+                    publish_kind[fn] = s_['op']
+        else:
+            status['unrecognised'].append(q)
+            for name, o in zip(slots, defaults):
+                d[name] = o
+            if fn in ('LockSIX', 'LockX'):
+                publish_kind[fn] = 'fxor'
+    status['orders']['mcs'] = d
+    status['facts']['mcs_publish_op'] = publish_kind
+    body = HEADER + 'import CppUtil.Model.McsParams\nnamespace CppUtil.Gen\nopen CppUtil CppUtil.Mcs\n\n'
+    body += 'def mcsConsts : McsConsts := {\n' + ',\n'.join(f'    {n} := {lean_word(vals[n])}' for n in names) + ' }\n\n'
+    body += 'def mcsOrders : String → MO\n'
+    for k in sorted(d):
+        body += f'  | "{k}" => {MO_LEAN[d[k]]}\n'
+    body += '  | _ => .sc\n\n'
+    body += '/-- how LockSIX / LockX publish the predecessor flags into their own node: a plain store\n'
+    body += '    (which can overwrite a successor link) or a read-modify-write that preserves the pointer -/\n'
+    body += f'def mcsPublishIsStore : Bool := {"true" if publish_kind.get("LockX") == "store" or publish_kind.get("LockSIX") == "store" else "false"}\n\n'
+    body += 'end CppUtil.Gen\n'
+    return write_if_changed(os.path.join(GEN_DIR, 'Mcs.lean'), body)
+
+
+GENERATORS = [gen_pess, gen_opt, gen_mcs]
 
 
 def main():
